@@ -13,7 +13,7 @@ import (
 // simulation adds is the operation sequence against a live store (latent
 // per-instance state in the node implementations) checked after every step.
 
-var c03Stores = []string{"nacc", "rmap", "nmap", "nstruct", "rstruct", "ctl", "rmap", "nstruct", "rstruct"}
+var c03Stores = []string{"nstruct0", "nacc", "rmap", "nmap", "nstruct", "rstruct", "ctl", "rmap", "nstruct", "rstruct"}
 
 func c03Gen(r *kit.Rng) *histScenario {
 	sk := store.Variant(r, c03Stores[r.Intn(len(c03Stores))])
